@@ -2156,7 +2156,9 @@ class DimensionConvention(Convention[GridKind, Index]):
             grid_kind = self.default_grid_kind
 
         dimensions = self.grid_dimensions[grid_kind]
-        sizes = [self.dataset.sizes[dim] for dim in dimensions]
+        # Not every grid dimension is a dimension of the dataset.
+        # The edges of a mesh can be defined without any variable using them.
+        sizes = list(self.grid_shape[grid_kind])
 
         return utils.wind_dimension(
             data_array,
